@@ -28,6 +28,7 @@ type c08Input struct {
 	TableMissing []int      `json:"tableMissing"`
 	Depth        int        `json:"depth"`
 	Rounds       []c08Round `json:"rounds"`
+	TablesFirst  bool       `json:"tablesFirst"` // the sender asks for TablesToSend before CommitsToSend
 }
 
 // BuildGraphWithTables is BuildGraph plus a dummy table object for every commit whose table is
@@ -101,13 +102,26 @@ func c08Run(in *c08Input) Res {
 			sort.Ints(ids)
 			acks = append(acks, ids)
 		}
-		commits, err := f.CommitsToSend()
-		if err != nil {
-			return Err("commits-to-send")
-		}
-		tables, err := f.TablesToSend()
-		if err != nil {
-			return Err("tables-to-send")
+		var commits []*objects.Commit
+		var tables map[string]struct{}
+		if in.TablesFirst {
+			tables, err = f.TablesToSend()
+			if err != nil {
+				return Err("tables-to-send")
+			}
+			commits, err = f.CommitsToSend()
+			if err != nil {
+				return Err("commits-to-send")
+			}
+		} else {
+			commits, err = f.CommitsToSend()
+			if err != nil {
+				return Err("commits-to-send")
+			}
+			tables, err = f.TablesToSend()
+			if err != nil {
+				return Err("tables-to-send")
+			}
 		}
 		sent := []int{}
 		for _, c := range commits {
@@ -170,7 +184,7 @@ func genC08(r *rand.Rand, thorough bool) (*c08Input, []string) {
 		}
 	}
 	n := len(g)
-	in := &c08Input{Graph: g, Refs: []int{}, TableMissing: []int{}}
+	in := &c08Input{Graph: g, Refs: []int{}, TableMissing: []int{}, TablesFirst: r.Intn(2) == 0}
 	// refs: the last commit and a few random ones
 	in.Refs = append(in.Refs, n)
 	for i := 0; i < r.Intn(3); i++ {
